@@ -110,6 +110,30 @@ func c06Decode(r *core.Run, regime, kind string, bc *blockCase, data []byte, dec
 		if p := core.Recover(func() { _ = derr.Error(); _ = fmt.Sprintf("%+v", derr) }); p != "" {
 			r.Violation("panic:error-rendering", p, cs())
 		}
+		// targets are reused across blocks: the next (valid) block into the same targets must not
+		// crash either, whatever the failed decode left behind
+		if regime == "flood" && len(data)%4 == 0 {
+			var blk2 proto.Block
+			var err2 error
+			r.Eval()
+			if p := core.Recover(func() { err2 = blk2.DecodeBlock(proto.NewReader(bytes.NewReader(bc.Bytes)), bc.Rev, target) }); p != "" {
+				r.Violation("panic:reused-target-after-failed-decode:"+decoder+":"+panicSite(p), fmt.Sprintf("%s/%s: after a failed decode of %s (%s), decoding the valid block into the same target panics: %s", regime, kind, bc.TS, decoder, p), cs())
+				return "panic"
+			}
+			if err2 == nil && decoder != "auto" && dst != nil {
+				if p := core.Recover(func() {
+					for i := 0; i < dst.Col().Rows(); i++ {
+						_ = dst.Get(i)
+					}
+				}); p != "" {
+					r.Violation("inconsistent:reused-target-row-accessor", p, cs())
+				}
+				if d := diffVals(bc.Vals, readAllSafe(dst)); d != "" {
+					r.Violation("inconsistent:reused-target-values:"+typeSite(bc.T), fmt.Sprintf("after a failed decode, the valid block decoded into the same target gives other values: %s", d), cs())
+				}
+			}
+			r.Count("reuse_after_failed_decode", 1)
+		}
 		return "error"
 	}
 	// success: consistency walk
